@@ -2,7 +2,9 @@
   Line-protocol driver for C19 (`drv_g3`): recomputes, with the Lean models at `Float`, what
   `harness/c19_g3.cpp` printed from the real `g3::Model`:
     pt / cl / ob / sd lines  (the inputs as the real parser stored them)  +  `run`
-      → `res frame|idx|dm|par|act|mat|row|cov|blk|rhs|minx` lines
+      → `res frame|idx|dm|par|act|mat|row|cov|blk|rhs|minx` lines (mat / row / cov / blk / rhs / minx are read off
+        `G3Dump.dumpOf`, the `Ls.Problem` handed to the model of class `Adj`)
+    `hom` → `hom dim|row|rhs` : `AdjM.homogenise (dumpOf …)`, the system `Adj` hands a full solver
     ev lines (SAX events of the text written by `AdjInputData::write_xml`) + `adjrt`
       → `rd …` lines (the model reader's result) and `ev …` lines (the model writer's events)
 -/
@@ -15,6 +17,7 @@ import Gama.Gen.G3Linearization
 import Gama.Model.G3Parser
 import Gama.Gen.G3ParserSites
 import Gama.Model.G3Net
+import Gama.Model.G3Dump
 open Gama Gama.Proto Gama.Neu Gama.G3Book Gama.G3Lin Gama.G3Net
 
 structure PtIn where
@@ -172,6 +175,18 @@ def showEv : AdjXml.Ev String → String
   | .text s => "ev T " ++ s
   | .ws => "ev W"
 
+/-- the clusters of `G3Dump`: covariance matrix, records with their `active()` flag -/
+def clustersOf (s : St) (act : List Bool) : List (G3Dump.Cluster String Float) :=
+  (s.cls.foldl (init := (([] : List (G3Dump.Cluster String Float)), s.obs.zip act)) fun (acc, rest) c =>
+    (acc ++ [⟨⟨c.dim, c.band, c.vals.toArray⟩, (rest.take c.nobs).map fun (o, a) => (a, o.toNObs)⟩],
+     rest.drop c.nobs)).1
+
+/-- `adj_input_data` after the last pass of `update_linearization` (the activity flags are settled: the
+    records still active are exactly those the last pass linearised) -/
+def dumpOfSt (s : St) : List Bool × Ls.Problem Float :=
+  let (_, _, act) := passes s s.obs.length (s.obs.map fun _ => true)
+  (act, G3Dump.dumpOf (netOf s) s.sd (clustersOf s act))
+
 def runModel (s : St) : String :=
   let P := (netOf s).points
   let (bk, lins, act) := passes s s.obs.length (s.obs.map fun _ => true)
@@ -183,25 +198,37 @@ def runModel (s : St) : String :=
     [s!"res idx {p.name} {bk.idx.index (isFreePar P) (p.name, .N)} {bk.idx.index (isFreePar P) (p.name, .E)} {bk.idx.index (isFreePar P) (p.name, .U)}"]
   let compName : Comp → String | .N => "N" | .E => "E" | .U => "U"
   let par := "res par" ++ String.join (bk.idx.par.map fun ((n, c), _) => s!" {n}.{compName c}")
-  -- rows and rhs in matrix order (the project equations of the network model)
-  let rowLines := lins.zipIdx.map fun (e, k) => showRow (k + 1) e.1
-  let rhsToks := lins.map fun e => showFloat e.2
-  -- cofactor blocks, cluster by cluster
-  let (blks, _) := s.cls.foldl (init := (([] : List String), act)) fun (ls, a) c =>
-    let mine := a.take c.nobs
-    let rest := a.drop c.nobs
-    if mine.all id then
-      (ls ++ [s!"res blk {c.dim} {c.band} " ++ renderAll (cofactorBlock s.sd c.vals)], rest)
-    else if mine.any id then (ls ++ ["res blk skip"], rest)
-    else (ls, rest)
-  let mx := minx P bk
+  -- everything below is read off the ONE value `dumpOf` (the object of the theorems of Props/C19Dump.lean)
+  let d := G3Dump.dumpOf (netOf s) s.sd (clustersOf s act)
+  let rowLines := d.rows.toList.zipIdx.map fun (r, k) =>
+    s!"res row {k + 1} {r.size}" ++ String.join (r.toList.map fun (i, c) => s!" {i} {showFloat c}")
+  let rhsToks := d.rhs.toList.map showFloat
+  let blks := d.cov.toList.map fun b => s!"res blk {b.dim} {b.width} " ++ renderAll b.v.toList
+  let written := G3Dump.bdWritten d.cov.toList
+  let announced := G3Dump.bdAnnounced (netOf s) (clustersOf s act)
   "\n".intercalate (frames ++
     [s!"res dm {bk.rows} {bk.idx.cols} {bk.floats}", par,
      "res act" ++ String.join (act.map fun a => if a then " 1" else " 0"),
-     s!"res mat {bk.rows} {bk.idx.cols} skip"] ++ rowLines ++
-    [s!"res cov {blks.length} skip"] ++ blks ++
+     -- `SparseMatrix::nonzeroes()` = the number of `add_element` calls
+     s!"res mat {d.m} {d.n} {G3Dump.floatsWritten lins}"] ++ rowLines ++
+    -- `BlockDiagonal::blocks() / nonzeroes()` = what `add_block` received; `res bd` = what was allocated
+    [s!"res cov {written.1} {written.2}"] ++ blks ++
     [s!"res rhs {rhsToks.length} " ++ " ".intercalate rhsToks,
-     if mx.isEmpty then "res nominx" else s!"res minx {mx.length}" ++ String.join (mx.map fun i => s!" {i}")])
+     match d.reg with
+     | .subset mx => s!"res minx {mx.length}" ++ String.join (mx.map fun i => s!" {i}")
+     | _ => "res nominx",
+     s!"hom bd {announced.1} {announced.2} {written.1} {written.2}"])
+
+/-- `A_dot`, `b_dot` of `Adj::init_least_squares` on gama-g3's own input -/
+def runHom (s : St) : String :=
+  let (_, d) := dumpOfSt s
+  match Ls.AdjM.homogenise d with
+  | .error e => s!"hom throw {e.name}"
+  | .ok (Ad, bd) =>
+    "\n".intercalate ([s!"hom dim {d.m} {d.n}"] ++
+      ((List.range d.m).map fun i =>
+        s!"hom row {i + 1}" ++ String.join ((List.range d.n).map fun j => " " ++ showFloat (Ls.Dn.mget Ad i j))) ++
+      ["hom rhs" ++ String.join ((List.range d.m).map fun i => " " ++ showFloat (Ls.Dn.vget bd i))])
 
 def runAdjRt (s : St) : String :=
   match AdjXml.readAll codec s.evs with
@@ -312,6 +339,7 @@ def step (s : St) (line : String) : St × String :=
     | some o => ({ s with obs := s.obs ++ [o] }, "")
     | none => (s, "bad-op")
   | ["run"] => (s, runModel s)
+  | ["hom"] => (s, runHom s)
   | "adj" :: _alg :: defect :: rtr :: _n :: xs =>
     match defect.toNat?, float? rtr, floats? xs with
     | some d, some r, some x => ({ s with adjDefect := d, adjRtr := r, adjx := x }, "")
